@@ -1,8 +1,10 @@
 import Anysystem.Proofs.R4Defs
 import Anysystem.Proofs.R4Lemmas
 import Anysystem.Proofs.SnapshotLemmas
+import Anysystem.Proofs.R2Defs
 /-!
-# R4 (partial: fault rates zero): one simulator step refines the reference semantics
+# R4 (partial: duplication and corruption rates zero, drop rate arbitrary): one simulator step refines the reference
+semantics
 
 Property-level theorems (helper lemmas are in `R4Lemmas.lean`, among them `popped_timer_unblocked`: the timer the
 simulator pops is `timerUnblocked` in the related reference state):
@@ -11,6 +13,7 @@ simulator pops is `timerUnblocked` in the related reference state):
 * `sim_step_refines_partial`    — one simulator step that handles an event is a reduced-enabled step of the
                                    reference semantics (or the event was addressed to a node without handler), and
                                    the relation is re-established;
+* `sim_step_refines_run`        — the same in the shape of a reference run (`refRun`) of at most one label;
 * `timedRel_of_quiet`           — the relation holds between a simulator state with an empty queue and its snapshot;
 * `R4Demo.demo_hyps`, `R4Demo.demo_step` — non-vacuity: a concrete `Sim Nat Ticks` state with one process, one queued
                                    timer and one queued message satisfies all hypotheses of the main theorem.
@@ -49,6 +52,24 @@ snapshot, `R5Rel.timedRel_snapshot`; all theorems above keep their names and the
 * `NetRel.handlersOk` (a node has a handler iff it exists and is not marked crashed) and `NetRel.nodesSorted` are
   new invariants of the simulator state alone; `timedRel_of_quiet` asks for `KSorted q.nodes` instead of distinct keys;
 * `netRel_snapshotNet`, `tprocRel_flat` are the two halves of the proof of `timedRel_of_quiet` that `R5Rel` reuses.
+
+Generalisation R6 (drop rate arbitrary; all theorems keep their names and the shape of their conclusions):
+
+* `NetRel.ratesZero` asks for duplication and corruption rate zero only; `NetRel.netFlags` says
+  `r.net.dropPos = lt zero q.net.dropRate` (what the snapshot computes) instead of `dropPos = false`;
+* `FlightRel.perm`: the triples of the flights of `r` are the triples of the deliverable queued copies of `q` **plus a
+  list of zombies** (empty when `r.net.dropPos = false`, `FlightRel.perm_of_noDrop`): the simulator decides a random
+  drop when the message is sent (`sendMessage`: it logs `dropped` and queues nothing) while the reference `send` puts the
+  message in flight with options `faults dropPos 0 false`.  Such a send needs NO reference step: the new flight is a
+  zombie (`FlightRel.addZombie`, `TimedRel.addZombie`, the new case of `send_sim`).  Nor does a zombie ever have to be
+  dropped by the reference run: reduced enabledness and the handler's reaction depend on a flight's triple only, so
+  when the simulator delivers a copy with triple `c` the reference run delivers the *oldest* flight with triple `c`
+  (it exists since the deliverable triples are among the flight triples, `FlightRel.key_mem`), and the multiset
+  equation "flights = deliverable + zombies" is kept with the same zombies (`FlightRel.popMsg`).  Hence one simulator
+  step is still AT MOST ONE reference step — `sim_step_refines_partial` keeps its conclusion verbatim — and the
+  zombies simply stay in flight (in `Mode.normal` they block nothing: timers fire regardless of flights);
+* `FlightRel.inert` asks for `Opts.dropOnly` (`noFail _` or `faults _ 0 false`) instead of `Opts.noFault`;
+* `timedRel_of_quiet`, `netRel_snapshotNet`: the hypothesis on the rates is `duplRate = zero ∧ corruptRate = zero`.
 -/
 namespace Anysystem
 
@@ -66,7 +87,7 @@ theorem TimedRel.visible (bits : T → Nat) (q : Sim σ T) (r : RState σ) (gs :
   intro n nd p e hn hp
   exact (hr.proc.procs n p e (by rw [proc?_eq hn]; exact hp)).1
 
-/-- (R4, partial: rates zero) one simulator step that handles an event is a step of the reference semantics that is
+/-- (R4, partial: duplication and corruption rates zero, drop rate arbitrary) one simulator step that handles an event is a step of the reference semantics that is
     enabled in the reduced sense (modulo the choice among identical in-flight messages: the reference delivers the
     oldest copy of the same message), and the relation is re-established.  A step that pops an event addressed to a
     node without handler changes nothing process-visible and keeps the relation.  `bits` must be monotone, adding a
@@ -108,9 +129,7 @@ theorem sim_step_refines_partial [LawfulTime T] (bits : T → Nat) (h : Handler 
       obtain ⟨hdn, hld, hls⟩ := hr.queue.msgLoc e f5 mid m src sn dst dn hd
       have hed : e ∈ q.deliverable := (mem_deliverable q e).2 ⟨f5, hdst⟩
       -- some flight of the reference state carries the triple of the popped copy; take the oldest such flight
-      have hkm : (m, src, dst) ∈ r.flights.map Flight.key := by
-        rw [hr.flights.perm.mem_iff, List.mem_filterMap]
-        exact ⟨e, hed, by rw [hd]; rfl⟩
+      have hkm : (m, src, dst) ∈ r.flights.map Flight.key := hr.flights.key_mem hed (by rw [hd]; rfl)
       obtain ⟨fl, g1, g2, g4, g3⟩ := firstKeyIdx_spec (m, src, dst) r.flights hkm
       obtain ⟨i, hi⟩ : ∃ i, i = firstKeyIdx (m, src, dst) r.flights := ⟨_, rfl⟩
       rw [← hi] at g1 g3 g4
@@ -196,12 +215,31 @@ theorem sim_step_refines_partial [LawfulTime T] (bits : T → Nat) (h : Handler 
     cases hdel
     exact Or.inl ⟨gs, pop_undeliverable hr hf hne hdst⟩
 
+/-- `sim_step_refines_partial` in the shape of a reference run: the empty run when the popped event was addressed to
+    a node without handler, a run of one reduced-enabled label otherwise.  (A send that the simulator drops at random
+    needs no reference step of its own: the flight the reference `send` creates stays in flight as a zombie.) -/
+theorem sim_step_refines_run [LawfulTime T] (bits : T → Nat) (h : Handler σ) (q q' : Sim σ T) (r : RState σ)
+    (gs : List (TimerGhost T)) (hr : TimedRel bits q r gs)
+    (hbits : ∀ x y : T, TimeOps.le x y = true → bits x ≤ bits y)
+    (hadd : ∀ a b c : T, TimeOps.le a b = true → TimeOps.le (TimeOps.add a c) (TimeOps.add b c) = true)
+    (hdelays : ∀ p st i a, a ∈ (h p st i).2 → ∀ name d once, a = .set name d once →
+      TimeOps.le TimeOps.zero (TimeOps.ofBits d : T) = true ∧ bits (TimeOps.ofBits d : T) = d)
+    (hknown : ∀ p st i a, a ∈ (h p st i).2 → ∀ m dst, a = .send m dst → (amGet? dst q.net.procLoc).isSome = true)
+    (hdraws : ∀ d ∈ q.draws, LawfulTime.isDraw d) (hlen : ∀ p st i, 4 * (h p st i).2.length ≤ q.draws.length)
+    (hstep : q.step (liftHandler h) = .ok (true, q')) :
+    ∃ ls r' gs', ls.length ≤ 1 ∧ refRun h .normal r ls = some r' ∧ TimedRel bits q' r' gs' := by
+  rcases sim_step_refines_partial bits h q q' r gs hr hbits hadd hdelays hknown hdraws hlen hstep with
+    ⟨gs', hrel'⟩ | ⟨l, r', gs', hen, hst, hrel'⟩
+  · exact ⟨[], r, gs', Nat.zero_le _, rfl, hrel'⟩
+  · refine ⟨[l], r', gs', Nat.le_refl _, ?_, hrel'⟩
+    simp only [refRun, hen, ↓reduceIte, hst]
+
 /-! ## the relation holds for a freshly built simulator state with an empty queue -/
 
 /-- the network part of the relation for the checker's network settings `snapshotNet` (used for quiet states here and
     for arbitrary related states in `R5Rel`) -/
 theorem netRel_snapshotNet [LawfulTime T] (bits : T → Nat) (q : Sim σ T) (r : RState σ)
-    (hrates : q.net.dropRate = TimeOps.zero ∧ q.net.duplRate = TimeOps.zero ∧ q.net.corruptRate = TimeOps.zero)
+    (hrates : q.net.duplRate = TimeOps.zero ∧ q.net.corruptRate = TimeOps.zero)
     (hlocNodes : ∀ p n, amGet? p q.net.procLoc = some n → amHas n q.nodes = true)
     (hhand : ∀ n, n ∈ q.handlers ↔ (∃ nd, amGet? n q.nodes = some nd ∧ nd.crashed = false))
     (hsorted : KSorted q.nodes)
@@ -248,12 +286,12 @@ theorem netRel_snapshotNet [LawfulTime T] (bits : T → Nat) (q : Sim σ T) (r :
   · -- netFlags
     rw [hnet]
     refine ⟨?_, ?_, ?_⟩
-    · show (snapshotNet bits q).dropPos = false
-      unfold snapshotNet; simp only; rw [s3, hrates.1]; exact hzz
+    · show (snapshotNet bits q).dropPos = TimeOps.lt TimeOps.zero q.net.dropRate
+      unfold snapshotNet; simp only; rw [s3]
     · show (snapshotNet bits q).duplNonzero = false
-      unfold snapshotNet; simp only; rw [s7, hrates.2.1, hzz]; rfl
+      unfold snapshotNet; simp only; rw [s7, hrates.1, hzz]; rfl
     · show (snapshotNet bits q).corruptPos = false
-      unfold snapshotNet; simp only; rw [s4, hrates.2.2]; exact hzz
+      unfold snapshotNet; simp only; rw [s4, hrates.2]; exact hzz
   · -- netCut
     intro a b ha hb
     rw [hnet]
@@ -324,7 +362,7 @@ theorem tprocRel_flat (q : Sim σ T) (r : RState σ)
 /-- the snapshot of a related simulator state is the reference state: what `ModelChecker::new` hands to the
     checker is related (`Sim'`, R2) to a reference state with the same flights (as a multiset) and timers -/
 theorem timedRel_of_quiet [LawfulTime T] (bits : T → Nat) (q : Sim σ T) (hq : q.events = []) (hc : q.canceled = [])
-    (hrates : q.net.dropRate = TimeOps.zero ∧ q.net.duplRate = TimeOps.zero ∧ q.net.corruptRate = TimeOps.zero)
+    (hrates : q.net.duplRate = TimeOps.zero ∧ q.net.corruptRate = TimeOps.zero)
     (hdel : TimeOps.le TimeOps.zero q.net.minDelay = true ∧ TimeOps.le q.net.minDelay q.net.maxDelay = true)
     (hpend : ∀ n nd p e, amGet? n q.nodes = some nd → amGet? p nd.procs = some e → e.pending = [])
     (hloc : ∀ n nd p e, amGet? n q.nodes = some nd → amGet? p nd.procs = some e → amGet? p q.net.procLoc = some n)
@@ -365,7 +403,9 @@ theorem timedRel_of_quiet [LawfulTime T] (bits : T → Nat) (q : Sim σ T) (hq :
     obtain ⟨nd, hn, hp⟩ := proc?_some he
     rw [hpend n nd p e hn hp, hlive]
     simp [amGet?]
-  · show List.Perm [] _
+  · refine ⟨[], ?_, fun _ => rfl⟩
+    show List.Perm [] _
+    unfold liveKeys
     rw [hdeliv]; exact List.Perm.nil
   · intro f hf; cases hf
 
@@ -430,7 +470,7 @@ theorem q0_procs (p : Nat) (e : SProc Nat Ticks)
   · cases h
 
 theorem rel0 : TimedRel bitsT q0 r0 [] := by
-  refine timedRel_of_quiet bitsT q0 rfl rfl ⟨rfl, rfl, rfl⟩ ⟨rfl, rfl⟩ ?_ ?_ ?_ ?_ (List.pairwise_singleton _ _)
+  refine timedRel_of_quiet bitsT q0 rfl rfl ⟨rfl, rfl⟩ ⟨rfl, rfl⟩ ?_ ?_ ?_ ?_ (List.pairwise_singleton _ _)
   · intro n nd p e hn hp
     obtain ⟨rfl, rfl⟩ := q0_nodes n nd hn
     obtain ⟨rfl, rfl⟩ := q0_procs p e hp
